@@ -375,6 +375,11 @@ def run(ctx):
             items.append((di, periods, 'live', {'timeline': '1'}, offs[:2]))
         if not ctx.quick:
             items.append((di, periods, 'vod', {'drm': 'all'}, [0]))
+        elif any(t[0] == 'text' for p in periods for t in p['tracks']) or \
+                (len(periods) == 2 and {p['stream'] for p in periods} == {'bbb', 'tears'} and di % 2 == 0):
+            # DRM requested for a presentation some of whose tracks only exist in the clear (subtitles, tears)
+            items.append((di, periods, 'vod', {'drm': 'playready'}, [0]))
+            items.append((di, periods, 'live', {'drm': 'all'}, [total * 0.4]))
     # the other manifest templates on the multi-period route
     multis = [(di, p) for di, p in enumerate(defs) if len(p) >= 2][:: (12 if ctx.quick else 4)]
     for di, periods in multis:
